@@ -169,7 +169,7 @@ class Parser:
         raise ValueError("bad operator %s" % op)
 
 
-DEF = re.compile(r"Definition (\w+?)(_wp)? (?:\(([^:()]*) : R\))?\s*(\(P : list R -> Prop\) : Prop|: list R) :=\n(.*?)\.\n", re.S)
+DEF = re.compile(r"Definition (\w+?)(_wpe|_wp)? (?:\(([^:()]*) : R\))?\s*(\(P : list R -> Prop\) : Prop|: list R) :=\n(.*?)\.\n", re.S)
 
 
 def parse_file(txt):
@@ -188,6 +188,11 @@ def parse_file(txt):
             if line.startswith("let "):
                 mm = re.match(r"let (\w+) := (.*) in$", line)
                 lets.append((mm.group(1), mm.group(2)))
+            elif line.startswith("forall "):
+                mm = re.match(r"forall (\w+), Eqn (\w+) (.*) ->$", line)
+                if mm.group(1) != mm.group(2):
+                    raise ValueError("wpe line binds %s but defines %s" % (mm.group(1), mm.group(2)))
+                lets.append((mm.group(1), mm.group(3)))
             elif line:
                 final = line
         if final is None:
@@ -199,7 +204,7 @@ def parse_file(txt):
         if not final.startswith("["):
             continue
         outs = [s.strip() for s in final.strip("[]").split(";")] if final.strip("[]").strip() else []
-        res.setdefault(name, {})["wp" if wp else "fn"] = (args, lets, outs)
+        res.setdefault(name, {})[{"_wp": "wp", "_wpe": "wpe", None: "fn"}[wp]] = (args, lets, outs)
     return res
 
 
@@ -272,7 +277,7 @@ def main(argv):
                 for o in out:
                     ref += list(np.array(ca.DM(o).full()).flatten(order="F")) if o.numel() else []
                 flat = [float(x) for v in vals for x in v]
-                for kind in ("fn", "wp"):
+                for kind in ("fn", "wp") + (("wpe",) if "wpe" in parsed[cname] else ()):
                     try:
                         got = evaluate(parsed[cname][kind], ([1e300 * 1e300] if has_inf else []) + flat)
                     except Exception as e:
